@@ -36,7 +36,11 @@ def gen_int(rng):
         digits = str(rng.randrange(10 ** 19, 10 ** 40))
     elif m == 3:
         digits = rng.choice(["0", "2147483647", "2147483648", "9223372036854775807",
-                             "9223372036854775808", "4294967296"])
+                             "9223372036854775808", "4294967296",
+                             # digit runs with the length / shape of another literal kind:
+                             # 32 (a GUID without dashes), 8 (a date without dashes), 6, 14, 36
+                             "1" + "0" * 31, "12345678901234567890123456789012", "20200101",
+                             "101500", "20200101101500", "9" * 36, "1" * 31, "1" * 33])
     else:
         digits = str(rng.randrange(10 ** rng.randint(1, 12)))
     s = sign + digits
@@ -257,6 +261,9 @@ GEN = {"int": gen_int, "float": gen_float, "bool": gen_bool, "null": gen_null, "
        "duration": gen_duration, "geo": gen_geo}
 
 # ---------------------------------------------------------------------------------------
+# names over the alphabet (and with the lengths) of other literal kinds
+HEXLIKE_IDENTS = ["cafebabe" * 4, "CAFEBABE" * 4, "deadbeef", "abcdef", "f00d", "e1", "E10", "a" * 32, "ab" * 16,
+                  "c0ffee00" * 4, "b" * 31, "b" * 33, "P1D", "PT5M", "T", "Z", "INF", "NaN", "d20200101", "x0"]
 KW_IDENTS = ["nullable", "anything", "allowed", "trueness", "falsehood", "notes", "inside",
              "android", "order", "address", "model", "integer", "general", "letter", "index",
              "any_x", "all_x", "not_done", "nulls", "truest", "falsey", "allow", "anyone",
